@@ -73,6 +73,9 @@ class ClosestIndex(ParameterTransformation):
                 )
                 if is_isotropic or is_diagonally_anisotropic:
                     allowed_inv_perms = 1 / allowed_perm_array
+                    if is_isotropic:
+                        # (M, 1) -> (M,): one scalar per material, compared against every voxel below
+                        allowed_inv_perms = allowed_inv_perms[:, 0]
                 else:
                     # Fully anisotropic: reshape to 3x3 matrix, invert, and flatten back to 9 elements
                     allowed_inv_perms = jnp.array(
